@@ -12,6 +12,10 @@ Decides the structural clauses:
          man/exp pair) in the mp context layer supplies the rounding mode to
          the converter (the converters default to round-down); mpf() accepts
          every source type the property names
+  S-R1   special values: mpf_add/sub/mul/div/neg/abs/pos/sqrt interpreted on every
+         combination of operand classes {0, +inf, -inf, nan, +normal, -normal}
+         with a non-normal operand, against the IEEE-style table
+         (ZeroDivisionError for a zero divisor) -- exhaustive over the classes
   B-R4i  the sticky-bit idioms that make a single rounding correct are
          present and well-formed (division / integer division: remainder ->
          extra low bit; sqrt: remainder -> extra low bit, floor shortcut only
@@ -82,6 +86,11 @@ def run(run, ix, tier):
     from .kernel_rules import check_exact_operand_conversion
     check_exact_operand_conversion(run, ix, 'B-R3t')
     check_conversion_rounding(run, ix)
+    # S-R1: the special-value clause (inf / nan operands, zero divisors), decided on operand classes
+    from .special_rules import check_special_values
+    run.rule('S-R1', floor=100, desc='special-value table on every operand-class combination')
+    check_special_values(run, ix, 'S-R1', ['mpf_add', 'mpf_sub', 'mpf_mul', 'mpf_div', 'mpf_neg', 'mpf_abs',
+                                           'mpf_pos', 'mpf_sqrt'])
     check_sticky_idioms(run, ix)
     check_tie_masks(run, ix)
 
